@@ -11,7 +11,7 @@ from nv.framework import Check, pmap, sha, harness_fail
 from nv import loader, progs, conform, cbuild
 from nv.am import AM, UB, Spin, Malformed, END, well_formed
 
-OPTSETS_Q = [[], ["-O3"], ["-O3", "-findirect-start-ptr", "-fstrict-done-token-generation"], ["-O2", "-fallocate-str-space-dynamic-on-demand", "-fdelete-string-free-memory", "-fstrings-as-u8", "-fhook-per-state", "-fno-hook-global"]]
+OPTSETS_Q = [[], ["-O3"], ["-O1", "-feof-support", "-fstrict-done-token-generation", "-findirect-start-ptr"], ["-O3", "-findirect-start-ptr", "-fstrict-done-token-generation"], ["-O2", "-fallocate-str-space-dynamic-on-demand", "-fdelete-string-free-memory", "-fstrings-as-u8", "-fhook-per-state", "-fno-hook-global"]]
 OPTSETS_T = OPTSETS_Q + [["-O0"], ["-O1", "-fallocate-str-space-dynamic", "-findirect-start-ptr", "-fuse-packed-enums"],
                          ["-O2", "--collapsed-range-length", "1", "-fzero-len-input-support"], ["-O3", "--max-shortcircuit-fallthrough", "0"],
                          ["-O2", "-feof-support", "-fyield-support"], ["-O3", "-funsafe-string-indexing", "-finclude-user-ptr"]]
